@@ -408,6 +408,25 @@ func checkC12(c *Check) {
 			}
 		})
 		calls := callsNamed(ru, "(route.Leaf).URLPath")
+		// what the leaf built is what the caller gets: every returned value is the result of a Leaf.URLPath call,
+		// untouched (joining, trimming or cleaning it changes paths whose first value is empty or starts with '/')
+		{
+			okRet, nRet := true, 0
+			allInstrs(ru, func(in ssa.Instruction) {
+				r, isR := in.(*ssa.Return)
+				if !isR || len(r.Results) != 1 {
+					return
+				}
+				nRet++
+				phiLeaves(r.Results[0], func(l ssa.Value) {
+					cl := asCall(l)
+					if cl == nil || callName(&cl.Call) != "(route.Leaf).URLPath" {
+						okRet = false
+					}
+				})
+			})
+			c.Cond(okRet && nRet > 0, k+":returns-leaf-text", p.FuncPos(ru), "router.URLPath returns the leaf's text unchanged", "router.URLPath post-processes the text the leaf built (joined, trimmed or cleaned): a path whose first substituted value is empty or begins with '/' no longer comes back as substituted")
+		}
 		// `if flag { return leaf.URLPath(vals, true) }; return leaf.URLPath(vals, false)`: one call per
 		// value of the flag is the single call with the flag as argument
 		if lk != nil && len(calls) == 2 {
